@@ -143,7 +143,13 @@ pub fn check(a: &Analysis, _aux: &mut Aux, t: &mut Tally) -> Vec<Violation> {
         if raw.len() % 2 == 1 {
             t.probe("odd-length-reply");
         }
-        t.judged(Verdict::Reply, format!("{}|{}", path, size_class(raw.len())));
+        let rk = match &rep.l4 {
+            L4::Tcp(t) => format!("tcp:{}:{}", crate::oracle::flags_str(t.flags), crate::apps::sig::identify_reply(&raw[t.pay_off..t.pay_off + t.pay_len]).map(|a| format!("{:?}", a)).unwrap_or("-".into())),
+            L4::Udp(u) => format!("udp:{}", crate::apps::sig::identify_reply(&raw[u.pay_off..u.pay_off + u.pay_len]).map(|a| format!("{:?}", a)).unwrap_or("?".into())),
+            L4::Icmp4(i) | L4::Icmp6(i) => format!("icmp:{}", i.ty),
+            _ => "l2".into(),
+        };
+        t.judged(Verdict::Reply, format!("{}|{}|{}|odd{}", path, rk, size_class(raw.len()), raw.len() % 2));
     }
     v
 }
